@@ -1,6 +1,7 @@
 from __future__ import annotations
 
 import functools as ft
+from datetime import timedelta
 from typing import TYPE_CHECKING, Tuple, Set
 
 import h3
@@ -170,10 +171,11 @@ def report_pickup_request(
 
     geoid = vehicle.geoid
     lat, lon = h3.h3_to_geo(geoid)
-    wait_time = time_diff(
-        request.departure_time.as_datetime_time(),
-        event_sim_time.as_datetime_time(),
-    )
+    # the event is stamped one step before the step in which the pickup happens, which can precede
+    # the departure time of a request that is picked up in the step it was admitted in; taking the
+    # difference of the times of day then wrapped around to almost 24 hours. the waiting time is
+    # the elapsed simulation time, and never negative
+    wait_time = timedelta(seconds=max(0, int(event_sim_time) - int(request.departure_time)))
 
     report_data = {
         "pickup_time": event_sim_time,
